@@ -48,7 +48,7 @@ CHECKS = {
     "C18": dict(
         category="exploration", design_ref="DESIGN.md 4.12, 5/C18",
         technique="TLA+ spec PlotView.tla (fit state versions, Plot object constructed at one version and drawn at a later one, wiring table artist -> observable per fit type / cost kind / panel) model-checked with TLC; TLC-generated histories of mutate / fit / make plot / draw(options) replayed on real fits rendered headless, every matplotlib artist compared with the fit's numbers",
-        text="TLC checks DrawnIsCurrent (a draw shows the current version whatever happened since the Plot was made), PoissonTermIffPoissonCost, BandOnlyWithResults over all histories in the bound for 7 (fit type, cost) pairs with one or two fits. "
+        text="TLC checks DrawnIsCurrent (a draw shows the current version whatever happened since the Plot was made), PoissonTermIffPoissonCost, BandOnlyWithResults over all histories in the bound for 7 (fit type, cost) pairs with one fit, two fits, or two fits joined in a MultiFit (global lines of the legend). "
              "Each Draw renders a real plot: data markers, x / y error bars (total uncertainty (+) sqrt(counts) for Poisson costs; half bin width), model curve (model function at the current parameters), uncertainty band (numerical Jacobian x parameter covariance), "
              "histogram bars and density, index steps, ratio / residual / pull panels and their bands, legend numbers -- compared with observables read from the fit object and combined by the documented formulas.",
         note="Level exploration: the spec contributes the schedule and the wiring table, the comparison is by sampling histories. Trusted: TLC, harness/adapters/plotview.py, matplotlib containers. Asymmetric uncertainties are computed before plot() (the profiling wobble is C08's subject)."),
